@@ -27,7 +27,7 @@ macro_rules! proj_enum {
         impl ToProj for $n {
             fn to_proj(&self) -> Proj {
                 match self {
-                    $( $n::$v $({ $($f),* })? => Proj::Variant(stringify!($n).to_string(), stringify!($v).to_string(), vec![$($((stringify!($f).to_string(), $f.to_proj())),*)?]), )*
+                    $( $n::$v $({ $($f),* })? => Proj::Variant(stringify!($n).to_string(), stringify!($v).trim_start_matches("r#").to_string(), vec![$($((stringify!($f).trim_start_matches("r#").to_string(), $f.to_proj())),*)?]), )*
                 }
             }
         }
@@ -388,6 +388,36 @@ pub enum HygieneEnum {
 }
 #[cfg(not(verif_no_edge))]
 proj_enum!(HygieneEnum { A { state, x, e, s, v, tag_value, tag_value_string }, B { key, value, map, error } });
+
+/// raw identifiers as variant names: without any rename, under rename_all, with an explicit rename
+#[derive(Deserr, Debug)]
+#[deserr(tag = "t")]
+pub enum RawVariants {
+    r#move { speed: u8 },
+    r#type,
+    r#Copy { n: u8 },
+    Plain,
+}
+proj_enum!(RawVariants { r#move { speed }, r#type, Copy { n }, Plain });
+
+#[derive(Deserr, Debug)]
+pub enum RawUnit {
+    r#type,
+    r#Copy,
+    #[deserr(rename = "mv")]
+    r#move,
+    Other,
+}
+proj_enum!(RawUnit { r#type, Copy, r#move, Other });
+
+#[derive(Deserr, Debug)]
+#[deserr(rename_all = camelCase)]
+pub enum RawUnitCamel {
+    r#TypeOf,
+    r#Match,
+    Other,
+}
+proj_enum!(RawUnitCamel { TypeOf, Match, Other });
 
 /// raw identifiers under deny_unknown_fields (the accepted list is built from the same keys)
 #[derive(Deserr, Debug)]
@@ -1025,6 +1055,13 @@ pub fn defs() -> Defs {
     d.add(Def::Conv(ConvDef { name: "CTrySame".into(), inter: Ty::Str, conv: Conv::TryFrom("try_same_err".into()), validate: None }));
     d.add(st(sdef("PortInner", vec![f("port", Ty::Str).try_from("try_port")])));
     d.add(st(sdef("PortS", vec![f("port", Ty::Str).try_from("try_port"), f("name", Ty::Str), f("backups", vec(named("PortInner"))).default(Proj::Seq(vec![]))])));
+    d.add(Def::Enum(edef(
+        "RawVariants",
+        "t",
+        vec![vd("move", "move", Some(vec![f("speed", u(8))])), vd("type", "type", None), vd("Copy", "Copy", Some(vec![f("n", u(8))])), vd("Plain", "Plain", None)],
+    )));
+    d.add(Def::UnitEnum(udef("RawUnit", &[("type", "type"), ("Copy", "Copy"), ("move", "mv"), ("Other", "Other")])));
+    d.add(Def::UnitEnum(udef("RawUnitCamel", &[("TypeOf", "typeOf"), ("Match", "match"), ("Other", "other")])));
     d.add(st(sdef("LowerRaw", vec![f("type", u(8)), f("Other", Ty::Bool).key("other"), f("fn", opt(u(8)))])));
     d.add(st(sdef("CamelRaw", vec![f("match", u(8)), f("two_words", Ty::Bool).key("twoWords"), f("loop", opt(u(8))).key("r#loop")])));
     d.add(st(sdef(
@@ -1311,6 +1348,9 @@ pub fn registry() -> Registry {
     r.all::<BTreeMap<String, ()>>("BTreeMap<String,()>", map(KeyTy::Str, Ty::Unit), CT);
     r.all::<Vec<PhantomData<u8>>>("Vec<PhantomData<u8>>", vec(Ty::Phantom), CT);
     r.all::<Option<Option<()>>>("Option<Option<()>>", opt(opt(Ty::Unit)), CT);
+    r.all::<RawVariants>("RawVariants", named("RawVariants"), &["derive", "enum", "raw-ident"]);
+    r.all::<RawUnit>("RawUnit", named("RawUnit"), &["derive", "unit-enum", "raw-ident", "rename"]);
+    r.all::<RawUnitCamel>("RawUnitCamel", named("RawUnitCamel"), &["derive", "unit-enum", "raw-ident", "rename"]);
     r.all::<LowerRaw>("LowerRaw", named("LowerRaw"), &["derive", "rename", "raw-ident"]);
     r.all::<CamelRaw>("CamelRaw", named("CamelRaw"), &["derive", "rename", "raw-ident"]);
     r.all::<MissingRenamed>("MissingRenamed", named("MissingRenamed"), &["derive", "rename", "custom-fn"]);
